@@ -50,8 +50,8 @@ FNS = list(SIGS)
 
 class Family:
     """what the parser needs to know about a family of functions: name -> (char/slice/bool parameter or None, its kind, return payload)"""
-    def __init__(self, sigs, buf, ext):
-        self.sigs, self.buf, self.ext = sigs, buf, ext
+    def __init__(self, sigs, buf, ext, ext2=False):
+        self.sigs, self.buf, self.ext, self.ext2 = sigs, buf, ext, ext2     # ext2: the forms of tools/translate_ignore.py
 SCAN_FAMILY = Family({f: (SIGS[f][1], 'char' if SIGS[f][1] else None, SIGS[f][2]) for f in SIGS}, buf=True, ext=False)
 
 PINNED = {   # helpers the interpreter (Model/ScanAst.v) maps onto the cursor primitives of Model/Read.v
@@ -74,7 +74,7 @@ ECODES = ['EofWhileParsingList', 'EofWhileParsingObject', 'EofWhileParsingString
           'KeyMustBeAString', 'ExpectedNumericKey', 'FloatKeyMustBeFinite', 'LoneLeadingSurrogateInHexEscape', 'TrailingComma',
           'TrailingCharacters', 'UnexpectedEndOfHexEscape', 'RecursionLimitExceeded']
 
-TOKEN = re.compile(r"\s*(b'(?:\\x[0-9a-fA-F]{2}|\\.|[^\\'])'|'(?:\\x[0-9a-fA-F]{2}|\\.|[^\\'])'|[A-Za-z_][A-Za-z0-9_]*|\.\.=|=>|::|==|!=|[@|(){},;!=.*])")
+TOKEN = re.compile(r"\s*(b\"(?:[^\"\\]|\\.)*\"|b'(?:\\x[0-9a-fA-F]{2}|\\.|[^\\'])'|'(?:\\x[0-9a-fA-F]{2}|\\.|[^\\'])'|[A-Za-z_][A-Za-z0-9_]*|\.\.=|=>|::|==|!=|[@|(){},;!=.*])")
 ESC = {'n': 10, 't': 9, 'r': 13, '\\': 92, '"': 34, '0': 0, "'": 39}
 
 def tokenize(s):
@@ -107,12 +107,26 @@ IDENT = re.compile(r'[a-z_][a-z0-9_]*\Z')
 KEYWORDS = {'_', 'self', 'let', 'mut', 'if', 'else', 'match', 'while', 'loop', 'return', 'as', 'true', 'false', 'fn', 'for', 'in', 'break',
             'continue', 'ref', 'move', 'buf'}
 
+def has_break(ss):
+    """a `break` that leaves the loop whose body is ss (nested loops keep their own)"""
+    for st in ss:
+        k = st[0]
+        if k == 'break': return True
+        if k in ('ifnot', 'iflet'): subs = [st[-1]]
+        elif k == 'if': subs = [st[2]]
+        elif k == 'ifelse': subs = [st[2], st[3]]
+        elif k == 'match': subs = [b for _, b in st[2]]
+        elif k == 'matchg': subs = [b for _, _, b in st[2]]
+        else: subs = []
+        if any(has_break(b) for b in subs): return True
+    return False
+
 class P:
     """recursive descent over the token list of one function body"""
     def __init__(self, toks, fn, fam=None):
         self.t, self.i, self.fn = toks, 0, fn
         self.fam = fam or SCAN_FAMILY
-        self.sigs, self.buf, self.ext = self.fam.sigs, self.fam.buf, self.fam.ext
+        self.sigs, self.buf, self.ext, self.ext2 = self.fam.sigs, self.fam.buf, self.fam.ext, self.fam.ext2
         self.ret = self.sigs[fn][2]
     def is_call(self):
         return self.at('self', '.') and bool(self.t[self.i + 2:self.i + 3]) and self.t[self.i + 2] in self.sigs and self.t[self.i + 3:self.i + 4] == ['(']
@@ -250,6 +264,28 @@ class P:
             if self.eat('error'): peeked = False
             elif self.eat('peek_error'): peeked = True
             else: raise Broken('Err(..) of something other than self.error / self.peek_error at `%s`' % self.here())
+            if self.ext2 and self.at('(', 'match'):
+                self.i += 2
+                x = self.ident()
+                if scope.get(x) != 'u8': raise Broken('match %s { .. => ErrorCode::.. }: %s is not a u8 variable' % (x, x))
+                self.need('{')
+                alts, closed = [], False
+                while not self.at('}'):
+                    if closed: raise Broken('arm after `_ => unreachable!()`')
+                    if self.eats('_ => unreachable!()'):
+                        closed = True
+                    else:
+                        if not (self.i < len(self.t) and self.t[self.i].startswith("b'")):
+                            raise Broken('byte literal expected in the ErrorCode selection at `%s`' % self.here())
+                        v = lit_value(self.t[self.i]); self.i += 1
+                        self.need('=>', 'ErrorCode', '::')
+                        c = self.t[self.i]; self.i += 1
+                        if c not in ECODES: raise Broken('unknown ErrorCode::%s' % c)
+                        alts.append((v, c))
+                    if not self.at('}'): self.need(',')
+                if not closed: raise Broken('ErrorCode selection without `_ => unreachable!()`')
+                self.need('}', ')', ')')
+                return ('errsel', peeked, x, alts)
             self.need('(', 'ErrorCode', '::')
             c = self.t[self.i]; self.i += 1
             if c not in ECODES:
@@ -291,6 +327,9 @@ class P:
         while not self.at('}'):
             sc = dict(scope)
             p = self.pat(kind, sc)
+            g = None
+            if self.ext2 and self.eat('if'):
+                g = self.cond(sc)
             self.need('=>')
             if self.at('{'):
                 body = self.block(tail, sc)
@@ -310,10 +349,12 @@ class P:
                     raise Broken('match arm outside the subset at `%s`' % self.here())
                 if not self.at('}'):
                     self.need(',')
-            out.append((p, body))
+            out.append((p, body, g))
         if not out:
             raise Broken('match without arms')
-        return out
+        if any(g is not None for _, _, g in out):
+            return [(p, g, body) for p, body, g in out]
+        return [(p, body) for p, body, _ in out]
     def let_pattern(self, scope):
         """PAT = tri!(SCRUT)   of a while-let / if-let: (pattern, scrutinee, scope with the binders)"""
         sc2 = dict(scope)
@@ -378,13 +419,137 @@ class P:
             b = [self.if_parse(is_tail, scope)] if self.at('if') else self.block(is_tail, scope)
             return ('ifelse', c, a, b)
         return ('if', c, a)
-    def items(self, tail, scope):
+    # ---- third family (ext2): value expressions with match, scratch stack, break ------------
+    def simple_value_len(self):
+        """number of tokens of a simple value expression standing here, or 0"""
+        if self.at('None'): return 1
+        if self.at('Some', '(') and self.is_ident(2) and self.t[self.i + 3:self.i + 4] == [')']: return 4
+        if self.at('(') and self.t[self.i + 1:self.i + 2] in (['true'], ['false']) and self.t[self.i + 2:self.i + 3] == [','] \
+           and self.is_ident(3) and self.t[self.i + 4:self.i + 5] == [')']: return 5
+        if self.is_ident() and self.t[self.i + 1:self.i + 2] in ([','], ['}'], [';']): return 1
+        return 0
+    def mexpr(self, scope):
+        """-> (expression, kind)   kind: 'opt' | 'u8' | 'pair' | None (diverges)"""
+        if self.eat('return'):
+            return ('ret', self.rexpr(scope)), None
+        if self.eat('match'):
+            if self.at('tri', '!'):
+                sc, kind = self.scrut()
+                ms = ('tri', sc)
+            elif self.eats('self.scratch.pop()'):
+                ms, kind = ('pop',), 'opt'
+            else:
+                x = self.ident()
+                if self.eats('.take()'):
+                    if scope.get(x) != 'opt': raise Broken('%s.take(): %s is not an Option<u8> variable' % (x, x))
+                    ms, kind = ('take', x), 'opt'
+                else:
+                    if scope.get(x) not in ('opt', 'u8'): raise Broken('match %s: not a u8 / Option<u8> variable' % x)
+                    ms, kind = ('var', x), scope[x]
+            self.need('{')
+            arms, kinds = [], set()
+            while not self.at('}'):
+                sc2 = dict(scope)
+                p = self.pat(kind, sc2)
+                self.need('=>')
+                if self.at('{'):
+                    self.need('{')
+                    sc3 = dict(sc2)
+                    pre = self.items(False, sc3, stop=lambda: self.simple_value_len() > 0 and self.t[self.i + self.simple_value_len():self.i + self.simple_value_len() + 1] == ['}'])
+                    if self.at('}'):
+                        raise Broken('block arm of a value match ends without a value')
+                    e, k = self.mexpr(sc3)
+                    self.need('}')
+                    self.eat(',')
+                else:
+                    pre = []
+                    e, k = self.mexpr(sc2)
+                    if not self.at('}'): self.need(',')
+                if k is not None: kinds.add(k)
+                arms.append((p, pre, e))
+            self.need('}')
+            if len(kinds) > 1: raise Broken('arms of a value match have different types: %s' % sorted(kinds))
+            return ('match', ms, arms), (kinds.pop() if kinds else None)
+        n = self.simple_value_len()
+        if n == 1 and self.at('None'):
+            self.i += 1
+            return ('none',), 'opt'
+        if n == 4:
+            y = self.t[self.i + 2]; self.i += 4
+            if scope.get(y) != 'u8': raise Broken('Some(%s): %s is not a u8 variable' % (y, y))
+            return ('some', y), 'opt'
+        if n == 5:
+            b, y = self.t[self.i + 1] == 'true', self.t[self.i + 3]; self.i += 5
+            if scope.get(y) != 'u8': raise Broken('(.., %s): %s is not a u8 variable' % (y, y))
+            return ('pair', b, y), 'pair'
+        if n == 1:
+            y = self.ident()
+            if scope.get(y) not in ('u8', 'opt'): raise Broken('value `%s` is not a u8 / Option<u8> variable' % y)
+            return ('var', y), scope[y]
+        raise Broken('value expression outside the subset at `%s`' % self.here())
+    def item3(self, scope):
+        """one item of the third family, or None"""
+        if self.eats('self.scratch.clear();'):
+            return ('clear',)
+        if self.at('self', '.', 'scratch', '.', 'extend', '('):
+            self.i += 6
+            x = self.ident()
+            if scope.get(x) != 'opt': raise Broken('scratch.extend(%s.take()): %s is not an Option<u8> variable' % (x, x))
+            self.needs('.take());')
+            return ('extendtake', x)
+        if self.eats('tri!(self.read.ignore_str());'):
+            return ('ignorestr',)
+        if self.at('tri', '!', '(', 'self', '.') and self.t[self.i + 5:self.i + 6] and self.t[self.i + 5] in self.sigs and self.t[self.i + 6:self.i + 7] == ['(']:
+            f = self.t[self.i + 5]
+            self.i += 7
+            arg = None
+            if not self.at(')'):
+                if not self.t[self.i].startswith('b"'): raise Broken('argument of self.%s is not a byte string literal' % f)
+                arg = tf.bytestr(self.t[self.i]); self.i += 1
+            self.need(')', ')', ';')
+            if (arg is None) != (self.sigs[f][1] != 'slice') or self.sigs[f][2] != '()':
+                raise Broken('tri!(self.%s(..)); : not a Result<()> function with this argument list' % f)
+            return ('try', f, arg)
+        if self.eats('break;'):
+            return ('break',)
+        if self.at('let', '(', 'mut') and self.is_ident(3) and self.t[self.i + 4:self.i + 6] == [',', 'mut'] and self.is_ident(6) \
+           and self.t[self.i + 7:self.i + 9] == [')', '=']:
+            x, y = self.t[self.i + 3], self.t[self.i + 6]
+            self.i += 9
+            e, k = self.mexpr(scope)
+            self.need(';')
+            if k != 'pair': raise Broken('let (mut %s, mut %s) = ..: the value is not a (bool, u8) pair' % (x, y))
+            scope[x], scope[y] = 'bool', 'u8'
+            return ('letpair', x, y, e)
+        j = self.i
+        if self.at('let'):
+            j += 2 if self.at('let', 'mut') else 1
+        if j < len(self.t) and IDENT.match(self.t[j]) and self.t[j] not in KEYWORDS and self.t[j + 1:j + 2] == ['='] \
+           and self.t[j + 2:j + 3] not in (['true'], ['false']) and not (self.at('let') and self.t[j + 2:j + 4] == ['match', 'tri']):
+            is_let = self.at('let')
+            x = self.t[j]
+            self.i = j + 2
+            e, k = self.mexpr(scope)
+            self.need(';')
+            if k not in ('opt', 'u8'): raise Broken('%s = ..: the value is not a u8 / Option<u8>' % x)
+            if is_let:
+                scope[x] = k
+                return ('letm', x, e)
+            if scope.get(x) != k: raise Broken('assignment to %s: it is not a variable of the type of the value' % x)
+            return ('assignm', x, e)
+        return None
+    def items(self, tail, scope, stop=None):
         out, done = [], False
-        while not self.at('}'):
+        while not self.at('}') and not (stop and not done and stop()):
             if self.i >= len(self.t):
                 raise Broken('unexpected end of body')
             if done:
                 raise Broken('item after a return / tail expression: `%s`' % self.here())
+            if self.ext2:
+                it = self.item3(scope)
+                if it is not None:
+                    out.append(it); done = it[0] == 'break'
+                    continue
             if self.eats('self.eat_char();'):
                 out.append(('eat',)); continue
             if self.eat('buf', '.', 'push', '('):
@@ -467,7 +632,7 @@ class P:
                 is_tail = tail and self.t[j:j + 1] == ['}']
                 arms = self.arms(kind, is_tail, scope)
                 self.need('}')
-                out.append(('match', sc, arms))
+                out.append(('matchg' if len(arms[0]) == 3 else 'match', sc, arms))
                 done = is_tail
                 continue
             if self.eat('while', 'let'):
@@ -476,7 +641,7 @@ class P:
                 out.append(('while', p, sc, body)); continue
             if self.eat('loop'):
                 body = self.block(False, scope)
-                out.append(('loop', body)); done = True; continue
+                out.append(('loop', body)); done = not has_break(body); continue
             if self.eat('return'):
                 r = self.rexpr(scope)
                 self.eat(';')
@@ -526,6 +691,7 @@ def coq_rexpr(r):
     if k == 'okvar': return '(ROkVar %s)' % q(r[1])
     if k == 'err': return '(RErr %s %s)' % ('true' if r[1] else 'false', r[2])
     if k == 'okbool': return '(ROkBool %s)' % ('true' if r[1] else 'false')
+    if k == 'errsel': return '(RErrSel %s %s [%s])' % ('true' if r[1] else 'false', q(r[2]), '; '.join('(%d, %s)' % a for a in r[3]))
     return '(RCall %s %s)' % (q(r[1]), opt(r[2]))
 def coq_stmt(s, ind):
     k = s[0]
@@ -547,11 +713,36 @@ def coq_stmt(s, ind):
         arms = (';\n' + pad).join('(%s, %s)' % (coq_pat(p), 'AVar %s' % q(a[1]) if a[0] == 'var' else 'ADiverge %s' % coq_block(a[1], ind + 4))
                                    for p, a in s[3])
         return 'SLetMatch %s %s [\n%s%s]' % (q(s[1]), coq_scrut(s[2]), pad, arms)
+    if k == 'clear': return 'SClear'
+    if k == 'extendtake': return 'SExtendTake %s' % q(s[1])
+    if k == 'ignorestr': return 'SIgnoreStr'
+    if k == 'break': return 'SBreak'
+    if k == 'try': return 'STry %s %s' % (q(s[1]), 'None' if s[2] is None else '(Some [%s])' % '; '.join(str(b) for b in s[2]))
+    if k == 'letm': return 'SLetM %s %s' % (q(s[1]), coq_mexpr(s[2], ind + 2))
+    if k == 'assignm': return 'SAssignM %s %s' % (q(s[1]), coq_mexpr(s[2], ind + 2))
+    if k == 'letpair': return 'SLetPair %s %s %s' % (q(s[1]), q(s[2]), coq_mexpr(s[3], ind + 2))
+    if k == 'matchg':
+        pad = ' ' * (ind + 2)
+        arms = (';\n' + pad).join('(%s, %s, %s)' % (coq_pat(p), 'None' if g is None else 'Some %s' % coq_cond(g), coq_block(b, ind + 4)) for p, g, b in s[2])
+        return 'SMatchG %s [\n%s%s]' % (coq_scrut(s[1]), pad, arms)
     if k == 'match':
         pad = ' ' * (ind + 2)
         arms = (';\n' + pad).join('(%s, %s)' % (coq_pat(p), coq_block(b, ind + 4)) for p, b in s[2])
         return 'SMatch %s [\n%s%s]' % (coq_scrut(s[1]), pad, arms)
     raise Broken('internal: ' + k)
+def coq_mexpr(e, ind):
+    k = e[0]
+    if k == 'none': return 'MNone'
+    if k == 'some': return '(MSome %s)' % q(e[1])
+    if k == 'var': return '(MVar %s)' % q(e[1])
+    if k == 'pair': return '(MPair %s %s)' % ('true' if e[1] else 'false', q(e[2]))
+    if k == 'ret': return '(MRet %s)' % coq_rexpr(e[1])
+    ms = e[1]
+    msc = {'tri': lambda: '(MsTri %s)' % coq_scrut(ms[1]), 'var': lambda: '(MsVar %s)' % q(ms[1]),
+           'take': lambda: '(MsTake %s)' % q(ms[1]), 'pop': lambda: 'MsPop'}[ms[0]]()
+    pad = ' ' * (ind + 2)
+    arms = (';\n' + pad).join('(%s, %s, %s)' % (coq_pat(p), coq_block(pre, ind + 4), coq_mexpr(v, ind + 4)) for p, pre, v in e[2])
+    return '(MMatch %s [\n%s%s])' % (msc, pad, arms)
 def coq_cond(c):
     if c[0] == 'eqlit': return '(CEqLit %s %d)' % (q(c[1]), c[2])
     if c[0] == 'nevar': return '(CNeVar %s %s)' % (q(c[1]), q(c[2]))
